@@ -93,7 +93,8 @@ func nsubstTree(s *slip.Scope, tree, rep, old slip.Object, kc, tc slip.Caller, d
 	if list, ok := tree.(slip.List); ok {
 		for i, e := range list {
 			if tail, ok2 := e.(slip.Tail); ok2 {
-				list[i] = slip.Tail{Value: nsubstTree(s, tail.Value, rep, old, kc, tc, depth)}
+				// The new cdr can be a list or nil.
+				return list[:i].WithCdr(nsubstTree(s, tail.Value, rep, old, kc, tc, depth))
 			} else {
 				list[i] = nsubstTree(s, e, rep, old, kc, tc, depth)
 			}
